@@ -21,7 +21,7 @@ META = {
 }
 
 RECS = ["absent", "current", "other"]
-STEPS = ["run", "dry-run", "status", "touch", "clean", "edit-A", "edit-B", "enable", "disable", "reject-next", "drain"]
+STEPS = ["run", "dry-run", "status", "touch", "clean", "clean-none", "touch-none"]
 
 
 class Model:
@@ -48,14 +48,14 @@ def _q18(ra, rb, enabled, step, ea, eb, reject):
     """One inductive step: arbitrary record map over {A, B} (+ a record of a removed target), hashing
     on or off, files present or not; one command; the record file afterwards = model."""
     sh = q.SHARD
-    if not (q.in_range(ra, 3) and q.in_range(rb, 3) and q.in_range(step, 5) and q.in_range(reject, 3)):
+    if not (q.in_range(ra, 3) and q.in_range(rb, 3) and q.in_range(step, 7) and q.in_range(reject, 3)):
         return q.SKIP
     if "step" in sh and step != sh["step"]:
         return q.SKIP
     if step != 0 and reject != 0:
         return q.SKIP
     enabled, ea, eb = (True if enabled else False), (True if ea else False), (True if eb else False)
-    ra, rb, st, rj = q.pick([0, 1, 2], ra), q.pick([0, 1, 2], rb), q.pick([0, 1, 2, 3, 4], step), q.pick([0, 1, 2], reject)
+    ra, rb, st, rj = q.pick([0, 1, 2], ra), q.pick([0, 1, 2], rb), q.pick([0, 1, 2, 3, 4, 5, 6], step), q.pick([0, 1, 2], reject)
     with q.notrace():
         pr = Project("chain2", "slurm")
         pr.add_sources(5)
@@ -76,6 +76,12 @@ def _q18(ra, rb, enabled, step, ea, eb, reject):
         else:
             rec = {}
         _apply_enabled(pr, enabled)
+        live = bool(sh.get("live"))
+        if live:
+            # both targets still have a queued job from an earlier invocation: this invocation asks no target for its hash
+            pr.add_tracked("A", "101", "pending")
+            pr.add_tracked("B", "102", "pending")
+            pr.write_tracked()
         if rj:
             w.sim.fault_only = ("sbatch",)
             w.sim.fault_at = rj
@@ -85,8 +91,9 @@ def _q18(ra, rb, enabled, step, ea, eb, reject):
         m = Model(pr.names, {nm: pr.targets[nm].spec for nm in pr.names}, enabled, rec)
         # what the file decision says now (for staleness and for what a run submits)
         stale = [pr.stale_by_files(i) or m.stale_by_spec(pr.names[i]) for i in range(pr.n)]
-        cone, stt, pre, sub = P.plan(pr.n, pr.deps, stale, [0, 0], P.endpoints(pr.n, pr.deps))
+        cone, stt, pre, sub = P.plan(pr.n, pr.deps, stale, [1, 1] if live else [0, 0], P.endpoints(pr.n, pr.deps))
         step_name = STEPS[st]
+        n0 = len(abst.jobs_by_cmd(w))
         if step_name == "status":
             table = w.status_table()
             want = {pr.names[i]: stt[i].lower() for i in cone}
@@ -99,7 +106,7 @@ def _q18(ra, rb, enabled, step, ea, eb, reject):
                 w.run()
             except Exception:
                 pass
-            accepted = [j["name"] for j in abst.jobs_by_cmd(w)]
+            accepted = [j["name"] for j in abst.jobs_by_cmd(w)[n0:]]
             if rj == 0 and sorted(accepted) != sorted(pr.names[i] for i in sub):
                 return "hashing %s, records A:%s B:%s, files a:%s b:%s: run submitted %s, expected %s" % (enabled, RECS[ra], RECS[rb], ea, eb, accepted, [pr.names[i] for i in sub])
             if enabled:
@@ -115,6 +122,13 @@ def _q18(ra, rb, enabled, step, ea, eb, reject):
             if enabled:
                 for nm in pr.names:
                     m.rec.pop(nm, None)
+        elif step_name == "clean-none":
+            w.clean(("Zzz*",), True, True)          # a selection that matches no target
+        elif step_name == "touch-none":
+            try:
+                w.touch(("Zzz*",))
+            except Exception:
+                pass
         got = pr.read_json(w.hashes_path())
         if got != m.rec:
             return "step %s with hashing %s (records before A:%s B:%s, rejected submission #%d): records afterwards %s, expected %s" % (step_name, enabled, RECS[ra], RECS[rb], rj, got, m.rec)
@@ -246,9 +260,10 @@ def q18h(s0: int, s1: int, s2: int, s3: int, start_enabled: bool) -> str:
 
 
 QUERIES = [
-    {"name": "Q18", "fn": q18, "shards": [{"step": k} for k in range(5)], "timeout": {"quick": 1500, "thorough": 3000},
+    {"name": "Q18", "fn": q18, "shards": [{"step": k} for k in range(7)] + [{"step": k, "live": 1} for k in (0, 1, 2, 4)], "timeout": {"quick": 1500, "thorough": 3000},
      "bound": "one step from an arbitrary state: record of A and of B each absent / current / outdated (+ a record of a removed target, or no hash file at all), hashing on/off, outputs present or not; "
-              "step in {run (with the 1st or 2nd sbatch rejected, or none), run --dry-run, status, touch, clean --all -f}; chain of 2 on Slurm"},
+              "step in {run (with the 1st or 2nd sbatch rejected, or none), run --dry-run, status, touch, clean --all -f, clean / touch with a pattern matching nothing}; "
+              "extra shards: both targets still have a queued job from an earlier invocation (no target is asked for its hash); chain of 2 on Slurm"},
     {"name": "Q18h", "fn": q18h,
      "shards": {"quick": [{"len": 2, "s0": k} for k in range(len(HSTEPS))], "thorough": [{"len": 3, "s0": k} for k in range(len(HSTEPS))] + [{"len": 4, "s0": a, "s1": b} for a in (0, 3, 5, 7, 8) for b in range(len(HSTEPS))]},
      "timeout": {"quick": 1500, "thorough": 3600},
